@@ -3,6 +3,7 @@ pub mod beans;
 pub mod co;
 pub mod local;
 pub mod nio;
+pub mod pool;
 pub mod qconc;
 pub mod queue;
 pub mod rtwait;
@@ -29,5 +30,6 @@ pub static ALL: &[Comp] = &[
     Comp { name: "stack", gen: stack::gen, exec: stack::exec, isolate_ms: 10000 },
     Comp { name: "trap", gen: trap::gen, exec: trap::exec, isolate_ms: 10000 },
     Comp { name: "sched", gen: sched::gen, exec: sched::exec, isolate_ms: 10000 },
+    Comp { name: "pool", gen: pool::gen, exec: pool::exec, isolate_ms: 15000 },
     Comp { name: "pq", gen: queue::gen_pq, exec: queue::exec_pq, isolate_ms: 500 },
 ];
